@@ -734,7 +734,10 @@ class Runner:
         idx = sorted({0, 1 % n, n // 2, n - 1, (self.opno * 7919) % n})
         for i in idx:
             for j in (i, i - n):
-                p = ps[j]
+                try:
+                    p = ps[j]
+                except (AttributeError, IndexError, ValueError) as e:
+                    self.fail("%s: [%d] raised %s for N=%d" % (label, j, type(e).__name__, n))
                 if (p.hash.value, bits(p.r)) != exp[i] or p.index != i:
                     self.fail("%s: [%d] is (hash %d, r %r, index %d), model has (hash %d, tag %d) at index %d"
                               % (label, j, p.hash.value, p.r, p.index, exp[i][0], self.P[i].tag, i))
